@@ -3,6 +3,7 @@ package c04
 
 import (
 	"cmp"
+	"math"
 	"fmt"
 	"runtime"
 	"sort"
@@ -799,8 +800,82 @@ func runTypes[K cmp.Ordered](c TypesCase, name string, mk func(int) K, less func
 	return nil
 }
 
+// runTies: keys c/2 (0, 0.5, 1, 1.5, ...) under "integer part of a < integer part of b": 2j and 2j+1 are one key.
+func runTies(c TypesCase, r *pbt.R) error {
+	n := c.N
+	if n < 1 || n > 512 || len(c.Ops) > 5000 {
+		return nil
+	}
+	less := func(a, b float64) bool { return math.Floor(a) < math.Floor(b) }
+	mk := func(i int) float64 { return float64(i) / 2 }
+	t := bstree.New[float64, int](less)
+	model := map[int]int{} // class (integer part) -> value
+	next, absentDeleted := 0, false
+	carve := r.KF(kfSize)
+	sawTie := false
+	for i, op := range c.Ops {
+		k := ((op[1] % n) + n) % n
+		cls := k / 2
+		ctx := func() string {
+			return fmt.Sprintf("bstree.New[float64, int] with keys compared by integer part, after %d of ops %v (key code c = c/2)", i+1, c.Ops)
+		}
+		switch ((op[0] % 3) + 3) % 3 {
+		case 0:
+			next++
+			if _, ok := model[cls]; ok {
+				sawTie = true
+			}
+			t.Upsert(mk(k), next)
+			model[cls] = next
+		case 1:
+			err := t.Delete(mk(k))
+			_, present := model[cls]
+			if present != (err == nil) {
+				return fmt.Errorf("%s: Delete(%v) returned %v; a key equivalent to it is present: %v", ctx(), mk(k), err, present)
+			}
+			if !present {
+				absentDeleted = true
+			}
+			delete(model, cls)
+		default:
+			got, err := t.Get(mk(k))
+			want, present := model[cls]
+			if present != (err == nil) || (present && (got.Val != want || math.Floor(got.Key) != float64(cls))) {
+				return fmt.Errorf("%s: Get(%v) = (%v, %v), want value %d (an equivalent key is present: %v)", ctx(), mk(k), got, err, want, present)
+			}
+		}
+		if absentDeleted && carve {
+			r.Excluded(kfSize)
+		} else if t.Size() != len(model) {
+			return fmt.Errorf("%s: Size() = %d, want %d keys (equivalence classes)", ctx(), t.Size(), len(model))
+		}
+	}
+	var classes []float64
+	t.Traverse(func(it bstree.Item[float64, int]) {
+		if len(classes) <= len(model)+4 {
+			classes = append(classes, math.Floor(it.Key))
+			if want, ok := model[int(math.Floor(it.Key))]; !ok || want != it.Val {
+				classes = append(classes, -1) // wrong value: forces the length test below to fail
+			}
+		}
+	})
+	if len(classes) != len(model) {
+		return fmt.Errorf("bstree.New[float64, int] with keys compared by integer part, after ops %v: Traverse visits %v (integer parts; -1 marks a stale value), want each of the %d keys once with its current value", c.Ops, classes, len(model))
+	}
+	for i := 1; i < len(classes); i++ {
+		if !(classes[i-1] < classes[i]) {
+			return fmt.Errorf("bstree.New[float64, int] with keys compared by integer part, after ops %v: Traverse order %v", c.Ops, classes)
+		}
+	}
+	r.NonTrivialIf(sawTie, "Upsert of a key equivalent to, but different from, a stored one")
+	return nil
+}
+
 func typesProp(c TypesCase, r *pbt.R) error {
-	switch ((c.KT % 4) + 4) % 4 {
+	if ((c.KT%5)+5)%5 == 4 {
+		return runTies(c, r)
+	}
+	switch ((c.KT % 5) + 5) % 5 {
 	case 0:
 		return runTypes(c, "string", func(i int) string { return fmt.Sprintf("k%03d", i) }, func(a, b string) bool { return a < b }, r)
 	case 1:
@@ -819,7 +894,7 @@ func typesProp(c TypesCase, r *pbt.R) error {
 }
 
 func typesGen(s pbt.Src, thorough bool) TypesCase {
-	c := TypesCase{KT: s.Intn(4), N: pbt.Pick(s, 3, 6, 20, 80)}
+	c := TypesCase{KT: s.Intn(5), N: pbt.Pick(s, 3, 6, 20, 80)}
 	max := 150
 	if thorough {
 		max = 600
@@ -850,7 +925,7 @@ func TestProp(t *testing.T) {
 		},
 		&pbt.Check[TypesCase]{
 			Name: "types",
-			Rule: "the same ordered-map semantics on other instantiations: bstree.New[K, struct] with K = string ascending, float64 descending (negative, zero, fractional keys), uint8, and strings ordered by (length, bytes); random Upsert/Delete/Get sequences of up to 150 (600) operations over 3..80 keys against a Go map: results of every call, Size after every call (subject to the known finding), Traverse in comparator order at the end. Non-trivial = >= 3 keys at the end.",
+			Rule: "the same ordered-map semantics on other instantiations: bstree.New[K, struct] with K = string ascending, float64 descending (negative, zero, fractional keys), uint8, strings ordered by (length, bytes), and float64 keys compared by their integer part only (a strict weak order with ties: equivalent keys are one key); random Upsert/Delete/Get sequences of up to 150 (600) operations over 3..80 keys against a Go map: results of every call, Size after every call (subject to the known finding), Traverse in comparator order at the end. Non-trivial = >= 3 keys at the end.",
 			Gen: typesGen, Prop: typesProp, OutOfEnum: func(TypesCase, bool) bool { return true },
 			RapidQuick: 400, RapidThorough: 5000,
 		},
